@@ -4,6 +4,7 @@
 From Coq Require Import ZArith Reals List Bool String.
 From Coquelicot Require Import Coquelicot.
 From VQ Require Import Num Model.Vec Model.Core Model.Grad Model.Scalar Proofs.GradProofs Glue.GradGlue Glue.Pin_p_grad.
+From VQ Require Import Proofs.StretchRotation.
 Import ListNotations.
 Open Scope R_scope.
 
@@ -162,3 +163,16 @@ Theorem C07_tie_detach_sites :
   p_grad.p_grad = pinned_p_grad.
 Proof. exact (@pin_p_grad). Qed.
 Print Assumptions C07_tie_detach_sites.
+
+Theorem C07_rotation_is_an_isometry :
+  forall (u qh e : Rv) (d : nat),
+       Datatypes.length u = d ->
+       Datatypes.length qh = d ->
+       Datatypes.length e = d ->
+       sqnorm R_ops u = 1 ->
+       sqnorm R_ops qh = 1 ->
+       0 < sqnorm R_ops (vadd R_ops u qh) ->
+       let w := vdivs R_ops (vadd R_ops u qh) (sqrt (sqnorm R_ops (vadd R_ops u qh))) in
+       sqnorm R_ops (rot_apply R_ops u qh w 1 e) = sqnorm R_ops e.
+Proof. exact (@rotation_is_isometry). Qed.
+Print Assumptions C07_rotation_is_an_isometry.
